@@ -148,6 +148,11 @@ def check_bias(ctx, b, q_int, q_fq, scale, where, extra=None):
     zero = s64 == 0
     if bool((f64[zero] != 0).any()):
         ctx.violation('bias-quantizer', dict(d, sig='zero-scale-not-zero'))
+    # the integer image (dequantize=False, what the integer back-ends store) must be zero as well:
+    # a pruned channel must not receive an integer bias
+    if bool((i64[zero] != 0).any()):
+        ctx.violation('bias-quantizer', dict(d, sig='zero-scale-integer-image-not-zero',
+                                             bias=b64, int=i64, scale=s64))
     prod = i64 * s64
     bad = (f64 - prod).abs() > 4 * EPS32 * prod.abs() + 1e-45
     if bool(bad.any()):
